@@ -85,67 +85,184 @@ def run(ctx):
             ctx.ob("W1", b.defp, f"client:{label}:stack", loc(t["sp"]), ok, f"{label} builds {last_seg(c.target)} -> {_short(rty)}; expected {exp}", ordinal=False)
 
     # ---------------- W1 server ---------------------------------------------------------------------
-    srv = [b for b in bodies if b.defp.startswith("octo_squirrel_server") and any(c.name == "TcpListener::accept" for (_, c, _) in b.calls())
-           and any(c.target.endswith("template::tcp::relay") for (_, c, _) in b.calls())]
+    # the listener = the server function that accepts TCP connections and (itself or through same-crate helpers, spawned or not) starts a relay.
+    # Judged on its flat view (helpers such as a `serve(inbound, codec, websocket)` are spliced in), by finite-configuration evaluation: every
+    # switch whose operand is the presence of the `ssl` / `ws` option - matched on directly, through a tuple of references, or as an
+    # `is_some()` boolean carried through locals and helper parameters - is forced to the configuration under evaluation.
+    srv = []
+    for b0 in bodies:
+        if not b0.defp.startswith("octo_squirrel_server") or not any(c.name == "TcpListener::accept" for (_, c, _) in b0.calls()):
+            continue
+        fb = prog.flat(b0.defp, stop=lambda cb: not cb.defp.startswith("octo_squirrel_server") or _relay_kind(prog, cb.defp) is not None, key="w1-listener")
+        if any(_relay_kind(prog, c.target) is not None for (_, c, _) in fb.calls()):
+            srv.append(fb)
     ctx.floor("W1", "server TCP listener", 1, len(srv))
     for b in srv:
-        tuple_local, pos = None, {}
+        def option_of(local, depth=0, neg=False):
+            """(`ssl` | `ws`, negated, kind) if the local is the discriminant / an is_some() boolean of that configuration option"""
+            if depth > 10:
+                return None
+            for d in b.defs().get(local, []):
+                if d[0] == "assign":
+                    rv = d[3]["rv"]
+                    if rv["k"] == "discr":
+                        nm = field_of(rv["p"])
+                        return (nm, neg, "discr") if nm else None
+                    if rv["k"] == "un" and rv["op"] == "Not":
+                        q = op_place(rv["a"])
+                        return option_of(q[0], depth + 1, not neg) if q and not q[1] else None
+                    if rv["k"] in ("use", "cast"):
+                        q = op_place(rv["op"])
+                        if q is not None and not q[1]:
+                            return option_of(q[0], depth + 1, neg)
+                        if q is not None:
+                            # a slot of a value that was built here: the state of a spliced `async fn` (its parameters), a tuple, a struct
+                            src = agg_slot(q, 0)
+                            if src is not None:
+                                return option_of(src, depth + 1, neg)
+                        return None
+                elif d[0] == "call":
+                    c_ = Callee(d[2]["f"])
+                    if c_.name in ("Option::is_some", "Option::is_none") and d[2]["args"]:
+                        q = op_place(d[2]["args"][0])
+                        nm = field_of(q) if q else None
+                        return (nm, neg != (c_.name == "Option::is_none"), "bool") if nm else None
+            return None
+
+        def agg_slot(place, depth):
+            """the local that was put into the aggregate slot `place` reads (through references, copies and the pinning of a spliced future)"""
+            if depth > 10:
+                return None
+            proj = list(place[1])
+            last_deref = max([i for i, e in enumerate(proj) if e[0] == "deref"], default=-1)
+            idx = [e[1] for e in proj[last_deref + 1:] if e[0] == "field"] or [e[1] for e in proj if e[0] == "field"]      # `((*(_1.0)).2)`: slot 2 of what the pin points to
+            if not idx:
+                return None
+            work, seen_ = [place[0]], set()
+            while work:
+                l = work.pop()
+                if l in seen_ or len(seen_) > 40:
+                    continue
+                seen_.add(l)
+                for d in b.defs().get(l, []):
+                    if d[0] == "assign":
+                        rv = d[3]["rv"]
+                        if rv["k"] == "agg" and idx[0] < len(rv["ops"]):
+                            q = op_place(rv["ops"][idx[0]])
+                            if q is not None and not q[1]:
+                                return q[0]
+                            if q is not None:
+                                return agg_slot(q, depth + 1)
+                        elif rv["k"] in ("use", "cast"):
+                            q = op_place(rv["op"])
+                            if q is not None:
+                                work.append(q[0])
+                        elif rv["k"] in ("ref", "rawptr"):
+                            work.append(rv["p"][0])
+                    elif d[0] == "call" and d[2]["args"]:
+                        # Pin::new_unchecked(&mut fut), IntoFuture::into_future(fut), get_unchecked_mut ...: the same object
+                        if Callee(d[2]["f"]).name in ("Pin::new_unchecked", "IntoFuture::into_future", "Pin::get_unchecked_mut", "Pin::as_mut", "Pin::new", "Pin::get_mut", "Deref::deref", "DerefMut::deref_mut"):
+                            q = op_place(d[2]["args"][0])
+                            if q is not None:
+                                work.append(q[0])
+            return None
+
+        def field_of(place, depth=0):
+            """the configuration option a place is (a reference to / a tuple slot holding a reference to)"""
+            if place is None or depth > 10:
+                return None
+            names = [e[2] for e in place[1] if e[0] == "field" and len(e) > 2 and e[2]]
+            if names and names[-1] in ("ssl", "ws"):
+                return names[-1]
+            idx = [e[1] for e in place[1] if e[0] == "field"]
+            for d in b.defs().get(place[0], []):
+                if d[0] != "assign":
+                    continue
+                rv = d[3]["rv"]
+                if rv["k"] == "ref":
+                    r = field_of(rv["p"], depth + 1)
+                    if r:
+                        return r
+                elif rv["k"] in ("use", "cast"):
+                    q = op_place(rv["op"])
+                    if q is not None:
+                        r = field_of([q[0], list(q[1]) + list(place[1])], depth + 1)
+                        if r:
+                            return r
+                elif rv["k"] == "agg" and rv.get("ak") == "tuple" and idx and idx[0] < len(rv["ops"]):
+                    q = op_place(rv["ops"][idx[0]])
+                    r = field_of(q, depth + 1) if q else None
+                    if r:
+                        return r
+            return None
+        found_opts = set()
         for blk in b.rpo():
-            for s in b.stmts(blk):
-                if s["k"] == "assign" and s["rv"]["k"] == "agg" and s["rv"]["ak"] == "tuple" and len(s["rv"]["ops"]) == 2:
-                    names = []
-                    for o in s["rv"]["ops"]:
-                        p = op_place(o)
-                        nm = None
-                        if p is not None:
-                            for d in b.defs().get(p[0], []):
-                                if d[0] == "assign" and d[3]["rv"]["k"] == "ref":
-                                    fs = [e[2] for e in d[3]["rv"]["p"][1] if e[0] == "field" and e[2]]
-                                    if fs:
-                                        nm = fs[-1]
-                        names.append(nm)
-                    if set(names) == {"ssl", "ws"}:
-                        tuple_local = s["p"][0]
-                        pos = {i: n for i, n in enumerate(names)}
-        if tuple_local is None:
-            ctx.anchor_lost("W1", "(ssl, ws) tuple in the server listener")
+            t = b.term(blk)
+            if t and t["k"] == "switch" and op_place(t["d"]) is not None and not op_place(t["d"])[1]:
+                o = option_of(op_place(t["d"])[0])
+                if o:
+                    found_opts.add(o[0])
+        if found_opts != {"ssl", "ws"}:
+            ctx.anchor_lost("W1", f"the listener's tests of the ssl / ws options (found: {sorted(found_opts)})")
             continue
-        is_some = {}  # bool local -> True if it is `ws.is_some()`
-        for (blk, c, t) in b.calls():
-            if c.name == "Option::is_some":
-                is_some[t["dest"][0]] = True
+        tls_accepts = {blk for (blk, c, t) in b.calls() if c.name == "TlsAcceptor::accept"}
         for combo in itertools.product((0, 1), repeat=2):
             cfg = dict(zip(("ssl", "ws"), combo))
 
             def decide(blk, t, cfg=cfg):
                 p = op_place(t["d"])
-                if p is None:
+                if p is None or p[1]:
                     return None
-                src = discr_source_field(b, p[0])
-                if src and src[0] == tuple_local and src[1] and pos.get(src[1][0][0]) == "ssl":
-                    return switch_target(t, cfg["ssl"])
-                if not p[1] and p[0] in is_some:
-                    return switch_target(t, cfg["ws"])
-                return None
+                o = option_of(p[0])
+                if o is None:
+                    return None
+                nm, neg, kind = o
+                val = cfg[nm] if kind == "discr" else int(bool(cfg[nm]) != neg)
+                return switch_target(t, val)
 
             seen = simulate_cfg(b, decide)
             relays = []
             for blk in seen:
-                t = b.term(blk)
-                if t and t["k"] == "call":
-                    c = Callee(t["f"])
-                    k = _relay_kind(prog, c.target)
+                for (cb_, c, t) in [x for x in b.calls() if x[0] == blk]:
+                    k = _relay_kind(prog, c.target) if c.name != "Future::poll" else None
                     if k is not None:
                         relays.append((c, t, k))
+            # ... or inside an async block that is created (and spawned) on this configuration's path
+            nested_calls = []
+            spliced_here = set(b.origin)
+            for blk in seen:
+                for s_ in b.stmts(blk):
+                    if s_["k"] == "assign" and s_["rv"]["k"] == "agg" and s_["rv"].get("ak") in ("closure", "coroutine") and s_["rv"].get("def") and prog.body(s_["rv"]["def"]) is not None \
+                            and s_["rv"]["def"] not in spliced_here:        # (the body of an awaited async fn is already part of this view)
+                        nfb = prog.flat(s_["rv"]["def"], stop=lambda cb: not cb.defp.startswith("octo_squirrel_server") or _relay_kind(prog, cb.defp) is not None, key="w1-listener")
+                        nested_calls += [(nfb, x) for x in nfb.calls()]
+            relay_body = {id(t): b for (_, t, _) in relays}
+            for (nfb_, (cb_, c, t)) in nested_calls:
+                k = _relay_kind(prog, c.target) if c.name != "Future::poll" else None
+                if k is not None:
+                    relays.append((c, t, k))
+                    relay_body[id(t)] = nfb_
             label = "ssl=%d,ws=%d" % combo
             kinds = {k for (_, _, k) in relays}
+            import os as _os
+            if _os.environ.get("OSQ_DEBUG_W1"):
+                print("W1-DEBUG", label, [(c.name, loc(t["sp"])) for (c, t, _) in relays], len(nested_calls))
+            # a relay whose function takes an already-upgraded WebSocket stream is WebSocket-accepting when the upgrade is made on the way to it
+            ws_upgrade = any(("ServerBuilder" in (c.self_s or c.target) and c.method == "accept") for (cb_, c, t) in [x for x in b.calls() if x[0] in seen] + [x for (_, x) in nested_calls])
+            if ws_upgrade and kinds == {"plain relay"} and all("WebSocket" in " ".join(a.get("s", "") for a in c.args) or "WebSocket" in " ".join(relay_body[id(t)].local_ty(op_place(a)[0]) for a in t["args"] if op_place(a)) for (c, t, _) in relays):
+                kinds = {"websocket-accepting relay"}
             exp_kind = "websocket-accepting relay" if cfg["ws"] else "plain relay"
             ctx.ob("W1", b.defp, f"server:{label}:relay-kind", loc(b.sp), kinds == {exp_kind}, f"{label} spawns {sorted(kinds)}; expected {exp_kind}", ordinal=False)
-            relays = [(c, t) for (c, t, _) in relays]
-            for (c, t) in relays:
+            tls_here = bool(tls_accepts & seen)
+            for (c, t, _) in relays:
                 ity = c.args[0].get("s", "") if c.args else ""
-                ok = ("TlsStream" in ity) == bool(cfg["ssl"])
-                ctx.ob("W1", b.defp, f"server:{label}:inbound-type", loc(t["sp"]), ok, f"{label}: relay over {_short(ity)}; expected " + ("TlsStream<TcpStream>" if cfg["ssl"] else "TcpStream"), ordinal=False)
+                if "::" in ity or "<" in ity:
+                    ok = ("TlsStream" in ity) == bool(cfg["ssl"])
+                    why = f"{label}: relay over {_short(ity)}; expected " + ("TlsStream<TcpStream>" if cfg["ssl"] else "TcpStream")
+                else:       # the relay is started from a helper that is generic over the inbound: judge by whether the TLS accept is on this configuration's path
+                    ok = tls_here == bool(cfg["ssl"])
+                    why = f"{label}: the TLS accept is " + ("" if tls_here else "not ") + "on the path to the relay; expected " + ("TLS" if cfg["ssl"] else "no TLS")
+                ctx.ob("W1", b.defp, f"server:{label}:inbound-type", loc(t["sp"]), ok, why, ordinal=False)
             # every relay is spawned, not awaited (shared with C08-L3)
     # ---------------- W2 pump cross-wiring -----------------------------------------------------------------
     fams = {}
@@ -253,6 +370,7 @@ def run(ctx):
     ctx.floor("W4", "inner decode call sites in stream codecs", 3, n)
     w5(ctx)
     w6(ctx)
+    w7(ctx)
 
 
 def w6(ctx):
@@ -273,6 +391,24 @@ def w6(ctx):
             parts = o.key.split("|")
             ctx.ob("W6", parts[1], parts[2], o.where, o.ok, o.detail)
     ctx.floor("W6", "forward pumps", 4, n)
+
+
+def w7(ctx):
+    """W7: "for every supported configuration ... arrives at the other end" quantifies over flows that run next to other peers. A TCP accept loop
+    that awaits a per-flow handshake (TLS, WebSocket upgrade) itself serves one peer at a time: a peer that connects and stays silent holds the
+    loop, later flows are never accepted into a tunnel and none of their bytes arrive. C08's L2 re-evaluated for the TCP listeners."""
+    from ..engine import Ctx
+    from . import c08
+    sub = Ctx(ctx.prog, "C08", ctx.tier)
+    sub.repo = getattr(ctx, "repo", None)
+    c08.run(sub)
+    n = 0
+    for o in sub.obs:
+        if o.rule == "L2" and "udp" not in o.key.split("|")[1]:
+            n += 1
+            parts = o.key.split("|")
+            ctx.ob("W7", parts[1], parts[2], o.where, o.ok, o.detail)
+    ctx.floor("W7", "handshake awaits inspected in TCP accept loops (C08 L2)", 1, n)
 
 
 def w5(ctx):
@@ -305,7 +441,8 @@ def _relay_kind(prog, target):
     if tb is not None and tb.defp.startswith("octo_squirrel_server"):
         _, _, handlers = first_item_handlers(prog)
         hroots = {fb.root for (fb, _) in handlers}
-        for fb0 in prog.family(tb.root):
+        from .common import inline_family
+        for fb0 in inline_family(prog, tb.root):       # a helper that only *spawns* the relay is not the relay
             fb = prog.flat(fb0.defp)
             if any(prog.body(o).root in hroots for o in set(fb.origin)) and tb.root not in hroots:
                 ws = any("ServerBuilder" in (c.self_s or c.target) and c.method == "accept" for (_, c, _) in fb.calls())
